@@ -18,6 +18,8 @@ EXPLANATION = ('(1) owner-records: every Stream impl in physical-plan / datasour
                'preserve-order repartition case). (4) spilled-rows: Count::add on a spilled_rows counter occurs only in '
                'InProgressSpillFile::append_batch, exactly once on every path on which IPCStreamWriter::write succeeded and on no other, '
                'and its operand is the row count returned by that write. The counts themselves are not decided.')
+# path rules cut loops after a bounded number of iterations: complete over rule instances, not over all unrollings
+EXHAUSTIVE = False
 ASSUMPTIONS = ['loops are cut after one iteration for the record-once rule (a double record inside one iteration is still seen)',
                'dyn-dispatched inner streams are opaque: wrapper-vs-inner double counting across operators is covered only by rule (3)',
                'metrics counters are reachable only through the named fields']
